@@ -66,8 +66,8 @@ def norm_df(df):
                    "icode": g("iCode"), "x": g("x"), "y": g("y"), "z": g("z"), "occ": g("occupancy"), "b": g("tempFactor"), "element": g("element"), "charge": g("charge"), "model": g("model")}
         else:
             g = lambda k: nv(r.get(k))
-            row = {"rec": g("group_PDB"), "serial": g("id"), "name": g("label_atom_id"), "alt": g("label_alt_id"), "resname": g("auth_comp_id") or g("label_comp_id"), "chain": g("auth_asym_id"),
-                   "resseq": g("auth_seq_id"), "icode": g("pdbx_PDB_ins_code"), "x": g("Cartn_x"), "y": g("Cartn_y"), "z": g("Cartn_z"), "occ": g("occupancy"), "b": g("B_iso_or_equiv"),
+            row = {"rec": g("group_PDB"), "serial": g("id"), "name": g("label_atom_id"), "alt": g("label_alt_id"), "resname": g("auth_comp_id") or g("label_comp_id"), "chain": g("auth_asym_id") if "auth_asym_id" in df.columns else g("label_asym_id"),
+                   "resseq": g("auth_seq_id") if "auth_seq_id" in df.columns else g("label_seq_id"), "icode": g("pdbx_PDB_ins_code"), "x": g("Cartn_x"), "y": g("Cartn_y"), "z": g("Cartn_z"), "occ": g("occupancy"), "b": g("B_iso_or_equiv"),
                    "element": g("type_symbol"), "charge": g("pdbx_formal_charge"), "model": g("pdbx_PDB_model_num")}
             if g("auth_atom_id") is not None and g("auth_atom_id") != row["name"]:
                 row["name"] = f"{row['name']}|auth={g('auth_atom_id')}"
@@ -170,6 +170,12 @@ def cases(shard, nshards, seed, tier):
     for i in range(n):
         if mine():
             yield {"family": "generated", "i": i, "path": ["pdb-pdb", "cif-cif", "pdb-cif-pdb", "cif-pdb-cif"][i % 4]}
+        # mmCIF tables carrying label_* identifiers only (no auth_* columns), interleaved with the normal ones
+        if i % 10 == 3 and mine():
+            yield {"family": "label-only", "i": i, "path": ["cif-cif", "cif-pdb-cif"][(i // 10) % 2]}
+        # check the parent table, derive a sub-table with plain pandas, fit (as the splitter does), write, read
+        if i % 10 == 7 and mine():
+            yield {"family": "derived-subtable", "i": i}
     files = [f for f in gen3d.corpus_files() if os.path.getsize(os.path.join(core.REPO, f)) < (150_000 if tier == "quick" else 900_000)]
     for fn in files:
         for path in ("pdb-pdb", "cif-cif", "pdb-cif-pdb", "cif-pdb-cif"):
@@ -203,6 +209,63 @@ def run_case(case, rec):
     fam = case["family"]
     if fam == "splitter":
         _splitter(case, rec)
+        return
+    if fam == "label-only":
+        rng = random.Random(f"{seed}:C09:lo:{case['i']}")
+        rows = gentab.random_table(rng, null_occ=False, nmodels=rng.choice([1, 2]))
+        if not emit.fits_pdb(rows):
+            rec.skip("roundtrip." + case["path"], "outside-PDB-limits")
+            return
+        ctx = {"i": case["i"], "path": case["path"], "label-only": True}
+        _cur["ctx"] = ctx
+        rec.mark_nontrivial(len(rows) >= 2)
+        from rnapolis import parser_v2 as p2
+
+        try:
+            text = emit.emit_cif(rows, label_seq="auth", drop_cols=("auth_seq_id", "auth_comp_id", "auth_asym_id", "auth_atom_id"))
+            df = p2.parse_cif_atoms(text)
+            if case["path"] == "cif-pdb-cif":
+                df = p2.parse_pdb_atoms(p2.write_pdb(df))
+            df = p2.parse_cif_atoms(p2.write_cif(df))
+            got = norm_df(df)
+        except Exception as e:
+            rec.violation("roundtrip.no-crash", {"ctx": ctx, "exception": repr(e)[:300]}, mechanism=f"crash:{type(e).__name__}")
+            return
+        diff = compare(rows, got)
+        rec.check("roundtrip.label-only", diff is None, lambda: {"ctx": ctx, "first-difference": diff})
+        return
+    if fam == "derived-subtable":
+        rng = random.Random(f"{seed}:C09:sub:{case['i']}")
+        rows = gentab.random_table(rng, null_occ=False, nmodels=1, nchains=3, blank_chain=False, serial_start=0)
+        if not emit.fits_pdb(rows):
+            rec.skip("roundtrip.cif-pdb-cif", "outside-PDB-limits")
+            return
+        chains = []
+        for r in rows:
+            if r["chain"] not in chains:
+                chains.append(r["chain"])
+        parent = [dict(r) for r in rows]
+        for r in parent:  # the parent does not fit: its last chain has a two-letter id
+            if r["chain"] == chains[-1]:
+                r["chain"] = r["chain"] + "X"
+        keep = chains[0]
+        sub = [r for r in rows if r["chain"] == keep]
+        ctx = {"i": case["i"], "derived-subtable": keep}
+        _cur["ctx"] = ctx
+        rec.mark_nontrivial(len(sub) >= 2)
+        from rnapolis import parser_v2 as p2
+
+        try:
+            df_all = p2.parse_cif_atoms(emit.emit_cif(parent))
+            p2.can_write_pdb(df_all)
+            df = df_all[df_all["auth_asym_id"] == keep].reset_index(drop=True)
+            df = p2.parse_pdb_atoms(p2.write_pdb(p2.fit_to_pdb(df)))
+            got = norm_df(p2.parse_cif_atoms(p2.write_cif(df)))
+        except Exception as e:
+            rec.violation("roundtrip.no-crash", {"ctx": ctx, "exception": repr(e)[:300]}, mechanism=f"crash:{type(e).__name__}")
+            return
+        diff = compare(sub, got)
+        rec.check("roundtrip.derived-subtable", diff is None, lambda: {"ctx": ctx, "first-difference": diff})
         return
     if fam == "hostile":
         rng = random.Random(f"C09:hostile:{case['h']}")
